@@ -728,7 +728,7 @@ package lang
 //@   init $eqSeen = false
 //@   init $failMark = 0
 //@   after Evaluator.evalCaseMatch: $failMark = (ret0 ? $failMark : $alloc)
-//@   exit[C09,C19] identifier-binds-a-copy-not-the-matched-cell: err == nil && result0 && istype(expr, *ExprIdentifier) && value.Value.Tag != ValueFn && value.Value.Tag != ValueNativeFn ==> has(result1, ident) && fresh(result1[ident]) && result1[ident].Value.Tag == value.Value.Tag
+//@   exit[C09,C19] identifier-binds-a-copy-not-the-matched-cell: err == nil && result0 && istype(expr, *ExprIdentifier) ==> has(result1, ident) && fresh(result1[ident]) && result1[ident].Value.Tag == value.Value.Tag && (value.Value.Tag != ValueFn && value.Value.Tag != ValueNativeFn && value.Value.Tag != ValueArray && value.Value.Tag != ValueObj && value.Value.Tag != ValueUnknown ==> result1[ident].Value.ParentObj == nil)
 //@   exit[C08,C19] bindings-come-from-the-matching-alternative-only: err == nil && result0 && result1 != nil ==> newerThan(result1, $failMark)
 //@   after Evaluator.evalExpr: $lit = ret0
 //@   after Value.Equals: $eqSeen = $eqSeen || (ret1 == nil && ret0)
@@ -1050,6 +1050,7 @@ package lang
 //@   ensures[C01] errkind: err == nil || isSyn(err)
 //@   ensures[C13] newline-skipped: err == nil ==> p.current != nil && p.current.Tag != Newline && (p.current.Tag != EOF ==> p.lexer.tokenStart < p.lexer.pos)
 //@   ensures strict: err != nil ==> p.lexer.tokenStart < p.lexer.pos
+//@   loop 0 invariant skipping-newlines: p.current == &t && p.previous == old(p.current) && p.lexer == old(p.lexer) && lexOK(p.lexer) && p.rules == old(p.rules) && p.inLoop == old(p.inLoop) && p.inFunction == old(p.inFunction) && p.depth == old(p.depth) && tokOKT(t) && (t.Tag != EOF ==> p.lexer.tokenStart < p.lexer.pos)
 //@   ensures previous: err == nil ==> p.previous == old(p.current)
 //@   ensures ok: p.lexer == old(p.lexer) && lexOK(p.lexer) && p.rules == old(p.rules) && (old(p.current) != nil ==> p.current != nil) && p.inLoop == old(p.inLoop) && p.inFunction == old(p.inFunction) && p.depth == old(p.depth) && (old(p.previous) != nil && old(p.current) != nil ==> p.previous != nil)
 
